@@ -233,7 +233,10 @@ def sqlite_matches(kind, v, got):
     if kind == "bool":
         return got == (1 if v else 0)
     if kind == "int":
-        return got == v if abs(v) < 2**63 else (isinstance(got, float) and got == float(v))
+        if abs(v) < 2**63:
+            return got == v
+        # beyond 64 bits SQLite falls back to a float (its text-to-float conversion is not correctly rounded)
+        return isinstance(got, float) and abs(got - float(v)) <= abs(float(v)) * 1e-14
     if kind == "float":
         # SQLite's text-to-float conversion is not correctly rounded for extreme exponents: allow 1 ulp-ish slack
         return isinstance(got, (int, float)) and (got == v or abs(got - v) <= abs(v) * 1e-14)
